@@ -281,4 +281,37 @@ func c10(r *Run) {
 	}
 	r.Exhaustive = true
 	runEsc(r, forms, runeInputs(r, r.N(3000, 150000)), judge, nil)
+	// every directive string over {J, c} (and the other letters around them) up to length 3, and the modifier
+	// spellings with an iteration count: the letters are applied one after the other, each run as often as it is
+	// long — Go output vs the interpreter model on the real tree, and the parser oracle on the letter runs
+	var cases []*RCase
+	var dirs []string
+	for _, a := range "Jc" {
+		dirs = append(dirs, string(a))
+		for _, b := range "Jchu" {
+			dirs = append(dirs, string(a)+string(b), string(b)+string(a))
+			for _, c := range "Jcq" {
+				dirs = append(dirs, string(a)+string(b)+string(c), string(b)+string(a)+string(c), string(c)+string(b)+string(a))
+			}
+		}
+	}
+	ins := []string{"a'b\"c", "</script>\n", "é\x0ba1", "x y;{}", "\\u0041"}
+	for di, d := range dirs {
+		for k := 0; k < 2; k++ {
+			in := ins[(di+k)%len(ins)]
+			body := []TNode{Print{Path: "v", Letters: d}}
+			c := &RCase{Tpls: []TplDef{{Key: "main", Src: Source(body), KeepFmt: true, Ast: body}}, Meta: map[string]any{"directive": d, "input": in}}
+			c.Ops = []SOp{{Kind: "static", Name: "v", Val: in}, {Kind: "render", Key: "main"}}
+			cases = append(cases, c)
+			r.Dist["mixed-directive"]++
+		}
+	}
+	for _, m := range []string{"jsEscape(2)", "cssEscape(2)", "jsEscape|cssEscape", "cssEscape|jsEscape|cssEscape", "jse(3)", "ce"} {
+		for _, in := range ins {
+			c := &RCase{Tpls: []TplDef{{Key: "main", Src: "{%= v|" + m + " %}", KeepFmt: true}}, Meta: map[string]any{"chain": m}}
+			c.Ops = []SOp{{Kind: "static", Name: "v", Val: in}, {Kind: "render", Key: "main"}}
+			cases = append(cases, c)
+		}
+	}
+	runSessions(r, cases, outputDiffers)
 }
